@@ -694,10 +694,12 @@ func runCfg(forms string, idx int) string {
 // ---- the real phout aggregator, a gun that uses netsample.Acquire ----
 
 type phGun struct {
-	t0     time.Time
-	slow   []int64 // starts of the windows in which a Shoot takes 2.6 s
-	aggr   netsample.Aggregator
-	shoots *atomic.Int64
+	// the Shoot calls of an episode: first one per instance taking 2.6 s, then one per ordinary token (1 ms); tokens that are
+	// discarded make no call. Which calls are slow is decided by their number, not by the wall clock: a machine that is
+	// slow to start the engine still runs the planned episodes.
+	inst, ordinary int64
+	aggr           netsample.Aggregator
+	shoots         *atomic.Int64
 }
 
 func (g *phGun) Bind(a core.Aggregator, _ core.GunDeps) error {
@@ -706,14 +708,11 @@ func (g *phGun) Bind(a core.Aggregator, _ core.GunDeps) error {
 }
 
 func (g *phGun) Shoot(core.Ammo) {
-	g.shoots.Add(1)
-	at := time.Since(g.t0).Nanoseconds()
+	k := g.shoots.Add(1) - 1
 	s := netsample.Acquire("verifgun")
 	d := ms
-	for _, w := range g.slow {
-		if at >= w-20*ms && at < w+80*ms {
-			d = 2600 * ms
-		}
+	if k%(g.inst+g.ordinary) < g.inst {
+		d = 2600 * ms
 	}
 	time.Sleep(time.Duration(d))
 	s.SetProtoCode(200)
@@ -753,10 +752,9 @@ func runPh(fields []string) string {
 	if len(fields) == 6 {
 		queue, stall = at(4), at(5) == 1
 	}
-	var toks, slow []int64
+	var toks []int64
 	base := int64(0)
 	for e := int64(0); e < episodes; e++ {
-		slow = append(slow, base)
 		for i := int64(0); i < inst; i++ {
 			toks = append(toks, base)
 		}
@@ -791,7 +789,7 @@ func runPh(fields []string) string {
 		conf := engine.Config{Pools: []engine.InstancePoolConfig{{
 			Provider:        endlessProvider{},
 			Aggregator:      netsample.WrapAggregator(ph),
-			NewGun:          func() (core.Gun, error) { return &phGun{t0: t0, slow: slow, shoots: &shoots}, nil },
+			NewGun:          func() (core.Gun, error) { return &phGun{inst: inst, ordinary: ordinary, shoots: &shoots}, nil },
 			NewRPSSchedule:  func() (core.Schedule, error) { return sched, nil },
 			StartupSchedule: schedule.NewOnce(inst),
 			DiscardOverflow: true,
